@@ -1,5 +1,6 @@
 import UtpVerif.Model.VSock
 import UtpVerif.Lemmas.Segments
+import UtpVerif.Props.C10Inv
 /-!
 # C17 — handshake and teardown follow the uTP state machine on the wire
 -/
@@ -116,15 +117,34 @@ theorem out_of_sequence_fin_dropped (v : VSock) (hdr : Header) (hty : hdr.htype 
   unfold stateGate
   rcases hst with h | ⟨f, h⟩ | h <;> simp [h, hty, h1, h2, hseq]
 
-/-- **In-sequence FIN in `Established`**: the endpoint moves to `LastAck`, scheduling its own FIN with
-the next sequence number. -/
+/-- **In-sequence FIN in `Established`**: the endpoint moves to `LastAck`, scheduling its own FIN with the number
+that follows the last segment that stays queued (`snd_una + len` after the never-sent tail was discarded). -/
 theorem in_sequence_fin_answered (v : VSock) (hdr : Header) (hty : hdr.htype = TYPE_ST_FIN)
     (hst : v.state = .established) (hseq : hdr.seqNr = wadd v.lastConsumedRemoteSeqNr 1) :
-    ∃ v', v.stateGate hdr = .proceed v' ∧ v'.state = .lastAck v.seqNr hdr.seqNr ∧ v'.seqNr = wadd v.seqNr 1 := by
+    ∃ v' fin, v.stateGate hdr = .proceed v' ∧ v'.state = .lastAck fin hdr.seqNr ∧ v'.seqNr = wadd fin 1 ∧
+      v'.segs = v.segs.discardUnsent ∧ fin = wadd v'.segs.sndUna (v'.segs.segs.length % 65536) := by
   have h1 : ¬ (TYPE_ST_FIN = TYPE_ST_RESET) := by decide
   have h2 : ¬ (TYPE_ST_FIN = TYPE_ST_SYN) := by decide
   unfold stateGate
   simp [hst, hty, h1, h2, hseq]
+
+/-- **The answering FIN can always be sent (D24).** Its number is exactly one past the last queued segment, so as
+soon as `last_sent_seq_nr` stands on that segment (`snd_una + len - 1`: everything queued is on the wire, or the
+queue is empty) `maybe_send_fin`'s guard `fin - last_sent_seq_nr = 1` holds. Before the D24 repair the FIN was
+numbered from `seq_nr`, which a popped MTU probe leaves one further ahead: the guard was then never true. -/
+theorem answering_fin_is_sendable (una len ls : Nat) (hu : una < 65536) (hlen : len ≤ 16000)
+    (hls : ls < 65536) (hat : seqSub ls una = (len : Int) - 1) :
+    seqSub (wadd una (len % 65536)) ls = 1 := by
+  open UtpVerif.Props.C10Inv in
+  have e1 : ls = off una ((len : Int) - 1) := by rw [← hat]; exact eq_off_of_seqSub ls una hls hu
+  open UtpVerif.Props.C10Inv in
+  have e2 : wadd una (len % 65536) = off ls 1 := by
+    rw [e1, off_off]
+    have : ((len : Int) - 1 + 1) = ((len : Nat) : Int) := by omega
+    rw [this, off_nat]
+    unfold wadd; omega
+  open UtpVerif.Props.C10Inv in
+  rw [e2]; exact seqSub_off ls 1 hls (by omega)
 
 /-- **Leaving `SynAckSent`**: only a DATA/STATE acknowledging `seq_nr − 1` establishes the connection;
 any other acknowledgement number is ignored; a FIN closes. -/
@@ -199,7 +219,7 @@ theorem remote_fin_leaves_no_unsent_segment (v : VSock) (hdr : Header) (hst : v.
     (hfin : hdr.htype = Gen.TYPE_ST_FIN) (hseq : hdr.seqNr = wadd v.lastConsumedRemoteSeqNr 1) (hS : SInv v.segs) :
     let v' := (v.stateGate hdr).vsock
     trailingUnsent v'.segs.segs = 0 ∧ SInv v'.segs ∧ v'.segs.sndUna = v.segs.sndUna ∧
-      v'.state = .lastAck v.seqNr hdr.seqNr := by
+      v'.state = .lastAck (wadd v'.segs.sndUna (v'.segs.segs.length % 65536)) hdr.seqNr := by
   have hne1 : hdr.htype ≠ Gen.TYPE_ST_RESET := by rw [hfin]; decide
   have hne2 : hdr.htype ≠ Gen.TYPE_ST_SYN := by rw [hfin]; decide
   obtain ⟨h1, h2, _, _, _, h6⟩ := discardUnsent_ok v.segs hS
